@@ -22,6 +22,7 @@ enum Val {
     W32(String),   // a 32-bit word: Lean term of type BitVec 32
     SN(String),    // a u64 parameter used as a count / size: Lean variable of type Nat (its word is `BitVec.ofNat 64 n`)
     SE(String),    // a u64 value computed from such a parameter: Lean term of type Nat (already reduced mod 2^64)
+    Ptr(Vec<Val>), // `[..].as_ptr()`: the pointed-to array (argument of a load intrinsic)
     Unit,
 }
 
@@ -36,6 +37,9 @@ struct Ex<'a> {
     regty: &'a str,                                 // Lean type of a register
     avx: bool,
     depth: usize,
+    free: HashMap<String, syn::ImplItemFn>,         // free functions of the file (`_mm_slli_si128_8` of aarch64.rs)
+    untyped_lets: bool,
+    in_wrapper: bool,                               // executing a method of the wrapper type (`Self` = the wrapper)
 }
 
 type R<T> = Result<T, String>;
@@ -47,7 +51,7 @@ fn lit_u64(l: &syn::LitInt) -> R<u64> {
 impl<'a> Ex<'a> {
     fn new(fns: &'a HashMap<String, syn::ImplItemFn>, wrap: &'a HashMap<String, syn::ImplItemFn>, traits: &'a HashMap<String, syn::ImplItemFn>,
            wrapper: &'a str, avx: bool) -> Self {
-        Ex { env: HashMap::new(), lets: Vec::new(), fresh: 0, fns, wrap, traits, wrapper, regty: if avx { "X86.R256" } else { "BitVec 128" }, avx, depth: 0 }
+        Ex { env: HashMap::new(), lets: Vec::new(), fresh: 0, fns, wrap, traits, wrapper, regty: if avx { "X86.R256" } else { "BitVec 128" }, avx, depth: 0, free: HashMap::new(), untyped_lets: false, in_wrapper: false }
     }
     fn bind(&mut self, e: String) -> Val {
         self.fresh += 1;
@@ -199,6 +203,34 @@ impl<'a> Ex<'a> {
         let f = self.fns.get(name).ok_or_else(|| format!("call of untranslated function {name}"))?.clone();
         self.call_item(&f, None, args)
     }
+    fn call_wrap(&mut self, f: &syn::ImplItemFn, selfv: Option<Val>, args: Vec<Val>) -> R<Val> {
+        let saved = self.in_wrapper;
+        self.in_wrapper = true;
+        let r = self.call_item(f, selfv, args);
+        self.in_wrapper = saved;
+        r
+    }
+    fn wasm_intrinsic(&mut self, name: &str, consts: &[u64], args: Vec<Val>) -> R<Val> {
+        let args: Vec<Val> = args.into_iter().map(|a| self.deref_val(a)).collect::<R<_>>()?;
+        let reg = |v: &Val| -> R<String> { match v { Val::W(s) => Ok(s.clone()), o => Err(format!("register argument of {name}: {:?}", o)) } };
+        let q = |v: &Val| -> R<String> { match v { Val::W(s) => Ok(s.clone()), Val::N(n) => Ok(format!("({:#x}#64)", n)), o => Err(format!("u64 argument of {name}: {:?}", o)) } };
+        let d = |v: &Val| -> R<String> { match v { Val::W(s) => Ok(s.clone()), Val::N(n) => Ok(format!("({:#x}#32)", n & 0xFFFF_FFFF)), o => Err(format!("u32 argument of {name}: {:?}", o)) } };
+        let imm = |v: &Val| -> R<String> { match v { Val::N(n) => Ok(format!("{n}")), o => Err(format!("immediate argument of {name}: {:?}", o)) } };
+        let cs = consts.iter().map(|c| c.to_string()).collect::<Vec<_>>();
+        let e = match (name, consts.len(), args.as_slice()) {
+            ("u64x2", 0, [a, b]) => format!("(Wasm.u64x2 {} {})", q(a)?, q(b)?),
+            ("u32x4" | "i32x4", 0, [a, b, c, e]) => format!("(Wasm.u32x4 {} {} {} {})", d(a)?, d(b)?, d(c)?, d(e)?),
+            ("v128_and" | "v128_or" | "v128_xor" | "v128_andnot" | "u64x2_add" | "u64x2_sub" | "u64x2_mul", 0, [a, b]) => format!("(Wasm.{name} {} {})", reg(a)?, reg(b)?),
+            ("u64x2_shr" | "u64x2_shl" | "u32x4_shr" | "u32x4_shl", 0, [a, n]) => format!("(Wasm.{name} {} {})", reg(a)?, imm(n)?),
+            ("u64x2_extract_lane", 1, [a]) => format!("(Wasm.u64x2_extract_lane {} {})", cs[0], reg(a)?),
+            ("i32x4_replace_lane", 1, [v, x]) => format!("(Wasm.i32x4_replace_lane {} {} {})", cs[0], reg(v)?, d(x)?),
+            ("u8x16_shuffle", 16, [a, b]) => format!("(Wasm.u8x16_shuffle [{}] {} {})", cs.join(", "), reg(a)?, reg(b)?),
+            ("u32x4_shuffle", 4, [a, b]) => format!("(Wasm.u32x4_shuffle {} {} {})", cs.join(" "), reg(a)?, reg(b)?),
+            ("u64x2_shuffle", 2, [a, b]) => format!("(Wasm.u64x2_shuffle {} {} {})", cs.join(" "), reg(a)?, reg(b)?),
+            _ => return Err(format!("wasm32::{name} is outside the translated subset")),
+        };
+        Ok(self.bind(e))
+    }
     /// inline a function: `selfv` is the receiver (a value, or a `Ref` to the caller's place for `&mut self`)
     fn call_item(&mut self, f: &syn::ImplItemFn, selfv: Option<Val>, args: Vec<Val>) -> R<Val> {
         if self.depth > 8 {
@@ -302,7 +334,7 @@ impl<'a> Ex<'a> {
             None => l,
         };
         let r = self.deref_val(r)?;
-        self.call_item(&f, Some(selfv), vec![r])
+        self.call_wrap(&f, Some(selfv), vec![r])
     }
     fn intrinsic(&mut self, name: &str, args: Vec<Val>) -> R<Val> {
         // (Lean name, argument kinds): R register, Q 64-bit word, D 32-bit word, I immediate (Nat)
@@ -319,6 +351,19 @@ impl<'a> Ex<'a> {
             ("_mm256_set_epi64x", "X86.set256_epi64x", "QQQQ"), ("_mm256_permutevar8x32_epi32", "X86.permutevar8x32_epi32", "RR"),
             ("_mm256_cmpeq_epi64", "X86.cmpeq256_epi64", "RR"), ("_mm256_unpacklo_epi64", "X86.unpacklo256_epi64", "RR"),
         ];
+        let neon: &[(&str, &str, &str)] = &[
+            ("vaddq_u64", "Neon.vaddq_u64", "RR"), ("vsubq_u64", "Neon.vsubq_u64", "RR"), ("vandq_u64", "Neon.vandq_u64", "RR"),
+            ("vorrq_u64", "Neon.vorrq_u64", "RR"), ("veorq_u64", "Neon.veorq_u64", "RR"), ("vbicq_u64", "Neon.vbicq_u64", "RR"),
+            ("vmull_u32", "Neon.vmull_u32", "RR"), ("vmovn_u64", "Neon.vmovn_u64", "R"), ("vshrn_n_u64", "Neon.vshrn_n_u64", "RI"),
+            ("vshrq_n_u64", "Neon.vshrq_n_u64", "RI"), ("vrev64q_u32", "Neon.vrev64q_u32", "R"), ("vqtbl1q_u8", "Neon.vqtbl1q_u8", "RR"),
+            ("vld1q_u8", "Neon.vld1q_u8", "p"), ("vld1q_u64", "Neon.vld1q_u64", "q"), ("vdupq_n_u32", "Neon.vdupq_n_u32", "D"),
+            ("vdupq_n_u8", "Neon.vdupq_n_u8", "B"), ("vdupq_n_u64", "Neon.vdupq_n_u64", "Q"), ("vsetq_lane_u32", "Neon.vsetq_lane_u32", "DRI"),
+            ("vextq_u8", "Neon.vextq_u8", "RRI"), ("vshlq_u32", "Neon.vshlq_u32", "RR"),
+        ];
+        if name.starts_with("vreinterpretq_") && args.len() == 1 {
+            return self.deref_val(args.into_iter().next().unwrap());   // a cast between views of the same 128 bits
+        }
+        let table: Vec<(&str, &str, &str)> = table.iter().chain(neon.iter()).cloned().collect();
         if name == "_mm_setzero_si128" && args.is_empty() {
             return Ok(Val::W("(0 : BitVec 128)".into()));
         }
@@ -338,6 +383,16 @@ impl<'a> Ex<'a> {
                 ('Q', Val::N(n)) => format!("({:#x}#64)", n),
                 ('D', Val::N(n)) => format!("({:#x}#32)", n & 0xFFFF_FFFF),
                 ('I', Val::N(n)) => format!("{n}"),
+                ('D', Val::W(s)) => s.clone(),
+                ('B', Val::N(n)) if *n < 256 => format!("({:#x}#8)", n),
+                ('p', Val::Ptr(items)) => {
+                    let bs: Vec<String> = items.iter().map(|x| match x { Val::N(n) if *n < 256 => Ok(format!("{n}")), o => Err(format!("table byte {:?}", o)) }).collect::<R<_>>()?;
+                    format!("[{}] 0", bs.join(", "))
+                }
+                ('q', Val::Ptr(items)) if items.len() == 2 => {
+                    let ws: Vec<String> = items.iter().map(|x| self.word(x)).collect::<R<_>>()?;
+                    format!("{} {}", ws[0], ws[1])
+                }
                 _ => return Err(format!("argument of {name}: {:?}", a)),
             });
         }
@@ -442,6 +497,13 @@ impl<'a> Ex<'a> {
                 for a in &m.args {
                     args.push(self.eval(a)?);
                 }
+                if name == "as_ptr" && args.is_empty() {
+                    let v = self.eval(&m.receiver)?;
+                    let v = self.deref_val(v)?;
+                    let Val::Arr(items) = v else { return Err("as_ptr of a non-array".into()) };
+                    let items: Vec<Val> = items.into_iter().map(|x| self.deref_val(x)).collect::<R<_>>()?;
+                    return Ok(Val::Ptr(items));
+                }
                 // a method of the hasher called on `self`
                 if matches!(&*m.receiver, Expr::Path(p) if p.path.is_ident("self")) && !self.env.contains_key("self") {
                     let f = self.fns.get(&name).ok_or_else(|| format!("hasher method {name}"))?.clone();
@@ -458,7 +520,7 @@ impl<'a> Ex<'a> {
                     let v = self.eval(&m.receiver)?;
                     self.deref_val(v)?
                 };
-                self.call_item(&f, Some(recv), args)
+                self.call_wrap(&f, Some(recv), args)
             }
             Expr::Cast(c) => {
                 // `hi as i64`, `0x8000_0000_u32 as i32`: the bit pattern is what the intrinsic receives
@@ -475,10 +537,37 @@ impl<'a> Ex<'a> {
                     args.push(self.eval(a)?);
                 }
                 let last = segs.last().cloned().unwrap_or_default();
+                if segs.len() == 2 && segs[0] == "wasm32" {
+                    let mut consts = Vec::new();
+                    if let Expr::Path(p) = &*c.func {
+                        if let Some(syn::PathArguments::AngleBracketed(ab)) = p.path.segments.last().map(|s| &s.arguments) {
+                            for ga in &ab.args {
+                                match ga {
+                                    syn::GenericArgument::Const(Expr::Lit(l)) => match &l.lit {
+                                        Lit::Int(i) => consts.push(lit_u64(i)?),
+                                        _ => return Err("const generic".into()),
+                                    },
+                                    _ => return Err("generic argument".into()),
+                                }
+                            }
+                        }
+                    }
+                    return self.wasm_intrinsic(&last, &consts, args);
+                }
+                if segs.len() == 2 && segs[0] == "Self" && self.in_wrapper {
+                    if let Some(f) = self.wrap.get(&last).cloned() {
+                        return self.call_wrap(&f, None, args);
+                    }
+                }
                 if segs.len() == 1 && segs[0] == self.wrapper && args.len() == 1 {
                     return self.deref_val(args.remove(0));                     // newtype constructor
                 }
-                if last.starts_with("_mm") {
+                if segs.len() == 1 {
+                    if let Some(f) = self.free.get(&last).cloned() {
+                        return self.call_item(&f, None, args);
+                    }
+                }
+                if last.starts_with("_mm") || (segs.len() == 1 && last.starts_with('v') && last.contains('_') && !self.fns.contains_key(&last)) {
                     return self.intrinsic(&last, args);
                 }
                 if segs.len() == 2 && segs[0] == self.wrapper {
@@ -486,10 +575,10 @@ impl<'a> Ex<'a> {
                         return self.deref_val(args.remove(0));
                     }
                     if let Some(f) = self.wrap.get(&last).cloned() {
-                        return self.call_item(&f, None, args);
+                        return self.call_wrap(&f, None, args);
                     }
                     if let Some(f) = self.traits.get(&last).cloned() {
-                        return self.call_item(&f, None, args);
+                        return self.call_wrap(&f, None, args);
                     }
                     return Err(format!("wrapper function {last}"));
                 }
@@ -637,10 +726,27 @@ impl<'a> Ex<'a> {
     fn lets_text(&self) -> String {
         let mut o = String::new();
         for (n, e) in &self.lets {
-            let _ = writeln!(o, "  let {n} : {} := {e}", self.regty);
+            if self.untyped_lets {
+                let _ = writeln!(o, "  let {n} := {e}");
+            } else {
+                let _ = writeln!(o, "  let {n} : {} := {e}", self.regty);
+            }
         }
         o
     }
+}
+
+fn collect_free(path: &str) -> HashMap<String, syn::ImplItemFn> {
+    let src = std::fs::read_to_string(path).unwrap_or_default();
+    let mut m = HashMap::new();
+    if let Ok(file) = syn::parse_file(&src) {
+        for it in &file.items {
+            if let Item::Fn(f) = it {
+                m.insert(f.sig.ident.to_string(), syn::ImplItemFn { attrs: vec![], vis: f.vis.clone(), defaultness: None, sig: f.sig.clone(), block: (*f.block).clone() });
+            }
+        }
+    }
+    m
 }
 
 fn collect(path: &str, ty: &str) -> (HashMap<String, syn::ImplItemFn>, HashMap<String, syn::ImplItemFn>) {
@@ -708,16 +814,32 @@ fn main() {
     let mut out = String::new();
     let mut thms = String::new();
     let mut status: Vec<(String, String)> = Vec::new();
-    out.push_str("-- GENERATED by /verif/harness/facts (simdgen) from src/x86/{sse,avx,v2x64u,v4x64u}.rs; do not edit.\nimport HH.Sse\nimport HH.Avx\nnamespace HH.Gen\n\n");
-    for (file, hasher, wrapfile, wrapper, avx, ns, fields) in [
-        ("sse.rs", "SseHash", "v2x64u.rs", "V2x64U", false, "Sse", &SSE_FIELDS[..]),
-        ("avx.rs", "AvxHash", "v4x64u.rs", "V4x64U", true, "Avx", &AVX_FIELDS[..]),
+    // which back ends: "x86" (default; sse.rs + avx.rs with their wrapper files), "neon" (aarch64.rs), "wasm" (wasm.rs)
+    let which = args.get(4).cloned().unwrap_or_else(|| "x86".to_string());
+    let (srcs, imports) = match which.as_str() {
+        "neon" => ("src/aarch64.rs", "import HH.Neon\n"),
+        "wasm" => ("src/wasm.rs", "import HH.WasmB\n"),
+        _ => ("src/x86/{sse,avx,v2x64u,v4x64u}.rs", "import HH.Sse\nimport HH.Avx\n"),
+    };
+    let _ = write!(out, "-- GENERATED by /verif/harness/facts (simdgen) from {srcs}; do not edit.\n{imports}namespace HH.Gen\n\n");
+    for (file, hasher, wrapfile, wrapper, avx, ns, model, fields) in [
+        ("sse.rs", "SseHash", "v2x64u.rs", "V2x64U", false, "Sse", "Sse", &SSE_FIELDS[..]),
+        ("avx.rs", "AvxHash", "v4x64u.rs", "V4x64U", true, "Avx", "Avx", &AVX_FIELDS[..]),
+        ("../aarch64.rs", "NeonHash", "../aarch64.rs", "V2x64U", false, "NeonG", "NeonB", &SSE_FIELDS[..]),
+        ("../wasm.rs", "WasmHash", "../wasm.rs", "V2x64U", false, "WasmG", "WasmB", &SSE_FIELDS[..]),
     ] {
+        let mine = match ns { "NeonG" => "neon", "WasmG" => "wasm", _ => "x86" };
+        if mine != which {
+            continue;
+        }
         let (fns, _) = collect(&format!("{dir}/{file}"), hasher);
         let (wrap, traits) = collect(&format!("{dir}/{wrapfile}"), wrapper);
+        let untyped = ns == "NeonG" || ns == "WasmG";
+        let free: HashMap<String, syn::ImplItemFn> = if untyped { collect_free(&format!("{dir}/{file}")) } else { HashMap::new() };
         let regty = if avx { "X86.R256" } else { "BitVec 128" };
-        let _ = write!(out, "namespace {ns}\nopen X86\n\n");
-        let _ = write!(thms, "namespace {ns}\nopen X86\n\n");
+        let open = match ns { "NeonG" => "Neon", "WasmG" => "Wasm", _ => "X86" };
+        let _ = write!(out, "namespace {ns}\nopen {open}\n\n");
+        let _ = write!(thms, "namespace {ns}\nopen {open}\n\n");
         let mut emit = |name: &str, r: R<(String, String)>| match r {
             Ok((d, t)) => {
                 out.push_str(&d);
@@ -732,18 +854,22 @@ fn main() {
         emit("zipper_merge", (|| {
             let f = fns.get("zipper_merge").ok_or("missing")?;
             let mut ex = Ex::new(&fns, &wrap, &traits, wrapper, avx);
+            ex.free = free.clone();
+            ex.untyped_lets = untyped;
             let ps = params(f);
             if ps.len() != 1 { return Err("arity".into()); }
             ex.env.insert(ps[0].clone(), Val::W("v".into()));
             let r = ex.block(&f.block)?;
             let d = format!("def zipperMerge (v : {regty}) : {regty} :=\n{}  {}\n", ex.lets_text(), ex.word(&r)?);
-            let t = format!("theorem zipperMerge_eq (v : {regty}) : zipperMerge v = HH.{ns}.zipperMerge v := rfl\n");
+            let t = format!("theorem zipperMerge_eq (v : {regty}) : zipperMerge v = HH.{model}.zipperMerge v := rfl\n");
             Ok((d, t))
         })());
         // update
         emit("update", (|| {
             let f = fns.get("update").ok_or("missing")?;
             let mut ex = Ex::new(&fns, &wrap, &traits, wrapper, avx);
+            ex.free = free.clone();
+            ex.untyped_lets = untyped;
             for fl in fields { ex.env.insert(format!("self.{fl}"), Val::W(format!("s.{fl}"))); }
             let ps = params(f);
             let (sig, call) = if avx {
@@ -754,7 +880,7 @@ fn main() {
                 if ps.len() != 2 { return Err("arity".into()); }
                 ex.env.insert(ps[0].clone(), Val::W("packetH".into()));
                 ex.env.insert(ps[1].clone(), Val::W("packetL".into()));
-                ("(s : HH.Sse.Regs) (packetH packetL : BitVec 128) : HH.Sse.Regs".to_string(), "HH.Sse.update s packetH packetL".to_string())
+                (format!("(s : HH.{model}.Regs) (packetH packetL : BitVec 128) : HH.{model}.Regs"), format!("HH.{model}.update s packetH packetL"))
             };
             ex.block(&f.block)?;
             let d = format!("def update {sig} :=\n{}  {}\n", ex.lets_text(), regs_text(&ex, fields)?);
@@ -767,29 +893,35 @@ fn main() {
         emit("permute_and_update", (|| {
             let f = fns.get("permute_and_update").ok_or("missing")?;
             let mut ex = Ex::new(&fns, &wrap, &traits, wrapper, avx);
+            ex.free = free.clone();
+            ex.untyped_lets = untyped;
             for fl in fields { ex.env.insert(format!("self.{fl}"), Val::W(format!("s.{fl}"))); }
             ex.block(&f.block)?;
-            let d = format!("def permuteAndUpdate (s : HH.{ns}.Regs) : HH.{ns}.Regs :=\n{}  {}\n", ex.lets_text(), regs_text(&ex, fields)?);
-            let t = format!("theorem permuteAndUpdate_eq (s : HH.{ns}.Regs) : permuteAndUpdate s = HH.{ns}.permuteAndUpdate s := rfl\n");
+            let d = format!("def permuteAndUpdate (s : HH.{model}.Regs) : HH.{model}.Regs :=\n{}  {}\n", ex.lets_text(), regs_text(&ex, fields)?);
+            let t = format!("theorem permuteAndUpdate_eq (s : HH.{model}.Regs) : permuteAndUpdate s = HH.{model}.permuteAndUpdate s := rfl\n");
             Ok((d, t))
         })());
         // modular_reduction(x, init)
         emit("modular_reduction", (|| {
             let f = fns.get("modular_reduction").ok_or("missing")?;
             let mut ex = Ex::new(&fns, &wrap, &traits, wrapper, avx);
+            ex.free = free.clone();
+            ex.untyped_lets = untyped;
             let ps = params(f);
             if ps.len() != 2 { return Err("arity".into()); }
             ex.env.insert(ps[0].clone(), Val::W("x".into()));
             ex.env.insert(ps[1].clone(), Val::W("init".into()));
             let r = ex.block(&f.block)?;
             let d = format!("def modularReduction (x init : {regty}) : {regty} :=\n{}  {}\n", ex.lets_text(), ex.word(&r)?);
-            let t = format!("theorem modularReduction_eq (x init : {regty}) : modularReduction x init = HH.{ns}.modularReduction x init := rfl\n");
+            let t = format!("theorem modularReduction_eq (x init : {regty}) : modularReduction x init = HH.{model}.modularReduction x init := rfl\n");
             Ok((d, t))
         })());
         if avx {
             emit("permute", (|| {
                 let f = fns.get("permute").ok_or("missing")?;
                 let mut ex = Ex::new(&fns, &wrap, &traits, wrapper, avx);
+            ex.free = free.clone();
+            ex.untyped_lets = untyped;
                 let ps = params(f);
                 if ps.len() != 1 { return Err("arity".into()); }
                 ex.env.insert(ps[0].clone(), Val::W("v".into()));
